@@ -14,3 +14,4 @@ def obj(cls, **fields):
     return ObjSpec(cls, fields)
 from .gen import TSmallInt
 SMALL = TSmallInt()
+from .ty import bytes_const
